@@ -221,6 +221,11 @@ func newClientOnce(cl *Cluster, o MgrOpts) (*Client, error) {
 	if bo == 0 {
 		bo = 20
 	}
+	if RaceBuild && bo < 200 {
+		// gorums hands the back-off to grpc as the connect deadline of every attempt (see
+		// loadfault.go); under the race detector a dial and handshake rarely fit into 20 ms
+		bo = 200
+	}
 	mopts := []gorums.ManagerOption{
 		gorums.WithGrpcDialOptions(dial...),
 		gorums.WithDialTimeout(time.Duration(dt) * time.Millisecond),
@@ -332,7 +337,19 @@ func (c *Client) Close(bound time.Duration) bool {
 		defer func() { _ = recover(); close(done) }()
 		c.Mgr.Close()
 	}()
-	return waitCh(done, bound)
+	ok := waitCh(done, bound)
+	if ok {
+		// Nodes registered while or after the manager was closed (configuration creation racing
+		// with Close) are not closed by it; the harness closes them so that they do not pile up
+		// over thousands of cases. (Close is idempotent for the nodes it did close.)
+		func() {
+			defer func() { _ = recover() }()
+			for _, n := range c.Mgr.Nodes() {
+				gorums.VerifCloseNode(n.RawNode)
+			}
+		}()
+	}
+	return ok
 }
 
 func (c *Client) lookup(token uint64) *Call {
